@@ -420,7 +420,7 @@ func main() {
 	for n := 0; n < nOrder; n++ {
 		runOrder(w, r)
 	}
-	for n := 0; n < nOrder/2; n++ {
+	for n := 0; n < nOrder*3/4; n++ {
 		runHandlers(w, r)
 	}
 	for n := 0; n < nOrder*3/4; n++ { // several clients on ONE provider / legacy server
